@@ -52,15 +52,15 @@ type decInput struct {
 }
 
 type dQuery struct {
-	Rd, Cd, Edns, Do, Ad  int
-	Qclass, Qtype, Ptr    string
-	Elig, Zone, Internal  int
+	Rd, Cd, Edns, Do, Ad int
+	Qclass, Qtype, Ptr   string
+	Elig, Zone, Internal int
 }
 type dDown struct {
-	Tc                                int
+	Tc                                    int
 	Rcode, Native, Ede, Mark, Work, Chain string
-	Ad                                int
-	Soa                               []int
+	Ad                                    int
+	Soa                                   []int
 }
 type dARec struct {
 	C string
@@ -73,9 +73,9 @@ type dA struct {
 	Ad    int
 }
 type dOut struct {
-	Kind, Rcode, Ede, Owner string
+	Kind, Rcode, Ede, Owner  string
 	Ad, Ttl, Stripped, Alook int
-	Syn                     [][]int
+	Syn                      [][]int
 }
 type dCase struct {
 	Idx  int    `json:"idx"`
@@ -702,7 +702,17 @@ func (r *decRun) runCase(c dCase) {
 		}
 	} else if strippedNative {
 		if rep.AuthenticatedData {
-			r.violate(x, "NeverAD", obs, "an AAAA-filtered reply (excluded native AAAA removed) carries AD", rep, sc)
+			sub := "filtered"
+			switch {
+			case lookups == 0:
+			case c.A.Kind == "nodata" || c.A.Kind == "nxdomain" || c.A.Kind == "servfail":
+				sub = "stripped-a-basis"
+			case c.A.Kind == "errWork" || c.A.Kind == "errAttempt":
+				sub = "stripped-a-localfail"
+			default:
+				sub = "stripped-a-unusable" // lookup error / nil / every A excluded: the stripped copy is relayed
+			}
+			r.violate(x, "NeverAD", sub, "an AAAA-filtered reply (excluded native AAAA removed) carries AD", rep, sc)
 		}
 	}
 	if x.qtype == dns.TypePTR {
@@ -771,11 +781,12 @@ func (r *decRun) runCase(c dCase) {
 	default:
 		forged := false
 		for _, code := range edeCodes(rep) {
-			if code == dns.ExtendedErrorCodeForgedAnswer && !(dn.Ede == "other" && x.edeCode == dns.ExtendedErrorCodeForgedAnswer) {
+			if code == dns.ExtendedErrorCodeForgedAnswer {
 				forged = true
 			}
 		}
-		if (o.Ede == "forged") != forged {
+		// (not comparable when the downstream reply itself carried EDE 4)
+		if downHas4 := dn.Ede == "other" && x.edeCode == dns.ExtendedErrorCodeForgedAnswer; !downHas4 && (o.Ede == "forged") != forged {
 			drift = fmt.Sprintf("EDE 4 present=%v, model ede=%s (%s)", forged, o.Ede, o.Kind)
 		}
 	}
